@@ -895,6 +895,33 @@ func encodingCases() []plugCase {
 		}
 		return out
 	}})
+	cases = append(cases, plugCase{"csv", "NewCSVWriter(source fails)", func() []fw.Violation {
+		// the rows written before the source failed must have reached the underlying writer by the time the
+		// stream has ended (the sink reported them as written), for k rows and for more than one buffer's worth
+		for _, k := range []int{1, 2, 3, 400} {
+			var buf, ref bytes.Buffer
+			var word []h.Ev
+			var rows [][]string
+			for i := 0; i < k; i++ {
+				row := []string{fmt.Sprint("row", i), "0123456789abcdef"}
+				rows = append(rows, row)
+				word = append(word, h.Nx(row))
+			}
+			word = append(word, h.Er(h.ErrSrc))
+			rec := h.NewRec("out")
+			rocsv.NewCSVWriter(csv.NewWriter(&buf))(h.Script[[]string](h.NewSrc("rows"), h.Unsafe, word)).Subscribe(h.Observer[int](rec))
+			w := csv.NewWriter(&ref)
+			w.WriteAll(rows)
+			evs := rec.Events()
+			if len(evs) == 0 || evs[len(evs)-1].K != h.E {
+				return []fw.Violation{fw.V("plugin/csv.NewCSVWriter/source-error/not-propagated", fmt.Sprintf("%d rows then an error: trace [%s]", k, rec.Trace()))}
+			}
+			if buf.String() != ref.String() {
+				return []fw.Violation{fw.V("plugin/csv.NewCSVWriter/source-error/rows-not-flushed", fmt.Sprintf("%d rows then an error: %d bytes reached the writer, encoding/csv writes %d for those rows (trace [%s])", k, buf.Len(), ref.Len(), rec.Trace()))}
+			}
+		}
+		return nil
+	}})
 	return cases
 }
 
@@ -1002,6 +1029,47 @@ func timeTemplateCases() []plugCase {
 		}
 		return out
 	}})
+	// one operator value used for several sources, the first of which ends on an item whose rendering fails
+	// half-way: what the later pipelines deliver is what the wrapped function returns for their items alone
+	for _, fl := range []struct {
+		name string
+		op   func(string) func(ro.Observable[[]string]) ro.Observable[string]
+		exec func(string, interface{}) (string, error)
+	}{
+		{"TextTemplate", func(t string) func(ro.Observable[[]string]) ro.Observable[string] {
+			return rotemplate.TextTemplate[[]string](t)
+		}, execText},
+		{"HTMLTemplate", func(t string) func(ro.Observable[[]string]) ro.Observable[string] {
+			return rotemplate.HTMLTemplate[[]string](t)
+		}, execHTML},
+	} {
+		fl := fl
+		cases = append(cases, plugCase{"template", fl.name + "(operator value reused after a failed render)", func() []fw.Violation {
+			tpl := "<td>{{index . 0}}</td><td>{{index . 1}}</td>"
+			op := fl.op(tpl)
+			inputs := [][][]string{{{"a", "b"}, {"x"}}, {{"e", "f"}}, {{"g", "h"}, {"y"}}, {{"i", "j"}}}
+			for n, items := range inputs {
+				var word []h.Ev
+				for _, it := range items {
+					word = append(word, h.Nx(it))
+				}
+				word = append(word, h.Co())
+				rec := h.NewRec("out")
+				op(h.Script[[]string](h.NewSrc(fmt.Sprint("src", n)), h.Unsafe, word)).Subscribe(h.Observer[string](rec))
+				vals := rec.Values()
+				for i, it := range items {
+					want, err := fl.exec(tpl, it)
+					if err != nil {
+						break // the stream ends with the error here
+					}
+					if i >= len(vals) || vals[i].(string) != want {
+						return []fw.Violation{fw.V("plugin/template."+fl.name+"/operator-value-reused/value-differs", fmt.Sprintf("pipeline #%d built from the same operator value, item %q: the template gives %q, the stream delivered %v", n+1, it, want, vals))}
+					}
+				}
+			}
+			return nil
+		}})
+	}
 	return cases
 }
 
